@@ -38,11 +38,13 @@ func repoRoot() string {
 // loadPkg parses the non-test files of dir and type-checks them with the source importer (offline: the
 // dependencies are in the module cache; the importer resolves them relative to the process's cwd,
 // which therefore has to be inside the module).
+var sharedFset = token.NewFileSet()
+
 func loadPkg(dir string, importPath string) *Pkg {
 	if err := os.Chdir(repoRoot()); err != nil {
 		fatal("chdir %s: %v", repoRoot(), err)
 	}
-	fset := token.NewFileSet()
+	fset := sharedFset // one file set for every package loaded, so positions of all of them can be printed alike
 	// the files a plain `go build` compiles: no tests, build constraints honoured (no `verif` tag, so the
 	// harness hooks are seen in their switched-off form)
 	pkgs, err := parser.ParseDir(fset, dir, func(fi os.FileInfo) bool {
